@@ -983,6 +983,7 @@ Definition fin_dom (s : st) (f : fin) : bool :=
   | FNone => true
   | FWhere e => uexpr_dom (fin_ref_dom s) e
   | FSelect items => forallb (fun it => uexpr_dom (fin_ref_dom s) (fst it)) items && nodupb (bare_names items)
+  | FRename _ _ => false
   end.
 
 Lemma select_items_ok s :
@@ -1038,7 +1039,7 @@ Proof.
   intros Hinv Hd. unfold inv in Hinv.
   apply andb_true_iff in Hinv. destruct Hinv as [Hinv Hwh].
   apply andb_true_iff in Hinv. destruct Hinv as [Hcanon Hfr]. apply negb_true_iff in Hfr.
-  destruct f as [|e|items]; simpl in *.
+  destruct f as [|e|items|old new]; simpl in *; [| | |discriminate].
   - exists s. split; reflexivity.
   - destruct (after_uexpr_ok s e Hcanon Hd) as [e' [M S]].
     unfold m_where, sp_where, sp_of. simpl. unfold order_of. rewrite Hfr, M, S. eexists. split; reflexivity.
@@ -1085,7 +1086,7 @@ Proof.
   apply andb_true_iff in Hd. destruct Hd as [Hnd Hd].
   destruct (join_chain_ok c Hc Hn steps _ (inv_init L lbase lctes Hnd) Hd) as [s' [M [S I]]].
   unfold m_run, sp_run. rewrite M. change (init_sp L lbase) with (sp_of (init_st L lbase lctes)). rewrite S.
-  destruct f as [|e|items].
+  destruct f as [|e|items|old new]; [| | |apply andb_true_iff in Hf; destruct Hf as [_ Hf]; rewrite M in Hf; discriminate].
   - simpl. symmetry. apply eval_sp_of.
   - apply andb_true_iff in Hf. destruct Hf as [Hk Hf]. rewrite M in Hf.
     destruct (fin_ok s' (FWhere e) (I Hk) Hf) as [s2 [M2 S2]]. rewrite M2, S2. symmetry. apply eval_sp_of.
